@@ -111,6 +111,7 @@ type Result struct {
 	Info     RunInfo        `json:"info"`
 	Choices  []int          `json:"choices,omitempty"`
 	Trace    []string       `json:"trace,omitempty"`
+	Known    map[string]int `json:"known,omitempty"`
 	crashed  bool
 	stderr   string
 }
@@ -159,6 +160,9 @@ func loadConfig() Config {
 
 func loadFindings() []Finding {
 	var f []Finding
+	if os.Getenv("VERIF_IGNORE_KNOWN") != "" {
+		return nil // development aid: produce replay files for classes that are listed as known
+	}
 	b, err := os.ReadFile(filepath.Join(verifDir, "known_findings.json"))
 	if err != nil {
 		return nil
@@ -679,6 +683,13 @@ func check(prop, tier string, onlyPart string) int {
 		for k, v := range part.Params {
 			params[k] = v
 		}
+		var knownKeys []string
+		for _, f := range findings {
+			if f.Property == prop && f.Status == "open" {
+				knownKeys = append(knownKeys, f.Key)
+			}
+		}
+		params["known_keys"] = knownKeys
 		j := job{bin: bin, harness: part.Harness, params: params}
 		workers := nw
 		if part.Workers > 0 && part.Workers < workers {
@@ -758,6 +769,9 @@ func check(prop, tier string, onlyPart string) int {
 			}
 			for _, s := range r.Info.States {
 				states[s] = true
+			}
+			for k, v := range r.Known {
+				knownHit[k] += v
 			}
 			if r.Info.Sig != "" {
 				states[r.Info.Sig] = true
